@@ -52,7 +52,10 @@ func c08R2(c *Ctx, r *c08Roles) {
 	c.Expect(R2, 12)
 	c08ComputeDirty(c.P, r)
 	nMut := 0
-	for _, f := range c.P.FuncsOfPkg(c08Pkg) {
+	for _, f := range c09FuncsOfPkg(c.P, c08Pkg) {
+		if c09IsYieldBody(f) {
+			continue // judged as part of the function whose loop it is
+		}
 		fname := FnName(f)
 		muts := c08Mutations(f, r)
 		if len(muts) > 0 && r.dirty[f] {
@@ -118,73 +121,152 @@ func c08RefNameConst(p *Prog) (string, bool) {
 }
 
 type c08Pass struct {
+	it      *c09Iter
 	fn      *ssa.Function
 	l       *Loop
 	k, v    ssa.Value
 	obj     c09DescObj
-	eq, neq []Edge // ref == digest / ref != digest
+	eq, neq []Edge // ref == digest / ref != digest, decided in the body
+	sel     int    // decided by the iterator that feeds the body: +1 only ref == digest entries are yielded (all of them), -1 only ref != digest, 0 no selection
 }
 
-// c08Passes: range loops of f over a value in `maps`, with the key-vs-digest test edges.
+// starts: where the handling of an entry of the given kind (+1: ref == digest,
+// -1: ref != digest) begins in the body.
+func (p *c08Pass) starts(sign int) (bs []*ssa.BasicBlock) {
+	if p.sel == sign {
+		b, _ := p.it.BodyStart()
+		return []*ssa.BasicBlock{b}
+	}
+	if p.sel != 0 {
+		return nil
+	}
+	es := p.eq
+	if sign < 0 {
+		es = p.neq
+	}
+	for _, e := range es {
+		bs = append(bs, e.To)
+	}
+	return bs
+}
+
+// c08KeyDigestSign: cond is true exactly when key == string(digest of obj) (+1)
+// or exactly when key != … (-1); 0 if it is not such a test.  Understands
+// `(ref == d) != flag` with a flag whose value constOf knows.
+func c08KeyDigestSign(cond ssa.Value, k ssa.Value, obj c09DescObj, constOf func(ssa.Value) (bool, bool)) int {
+	switch u := cond.(type) {
+	case *ssa.UnOp:
+		if u.Op == token.NOT {
+			return -c08KeyDigestSign(u.X, k, obj, constOf)
+		}
+	case *ssa.BinOp:
+		if u.Op != token.EQL && u.Op != token.NEQ {
+			return 0
+		}
+		isDg := func(x ssa.Value) bool { return c09DigestString(obj, x) || c09DigestString(obj, strip(x)) }
+		if (c09SameKey(u.X, k) && isDg(u.Y)) || (c09SameKey(u.Y, k) && isDg(u.X)) {
+			if u.Op == token.EQL {
+				return 1
+			}
+			return -1
+		}
+		// boolean (in)equality with a known flag
+		for _, pair := range [][2]ssa.Value{{u.X, u.Y}, {u.Y, u.X}} {
+			inner := c08KeyDigestSign(pair[0], k, obj, constOf)
+			if inner == 0 {
+				continue
+			}
+			flag, known := false, false
+			if cst, isC := pair[1].(*ssa.Const); isC && cst.Value != nil {
+				flag, known = cst.Value.String() == "true", true
+			} else if constOf != nil {
+				flag, known = constOf(pair[1])
+			}
+			if !known {
+				return 0
+			}
+			if (u.Op == token.EQL) == flag {
+				return inner
+			}
+			return -inner
+		}
+	}
+	return 0
+}
+
+// c08SignEdges: the branch edges of the body of it on which an entry is known
+// to have key == digest / key != digest.
+func c08SignEdges(it *c09Iter, k ssa.Value, obj c09DescObj, constOf func(ssa.Value) (bool, bool)) (eq, neq []Edge) {
+	for _, i := range Ifs(it.Fn) {
+		if !it.InBody(i) {
+			continue
+		}
+		cond, t, fe := ifEdges(i)
+		switch c08KeyDigestSign(cond, k, obj, constOf) {
+		case 1:
+			eq, neq = append(eq, t), append(neq, fe)
+		case -1:
+			eq, neq = append(eq, fe), append(neq, t)
+		}
+	}
+	return
+}
+
+// c08Passes: the loops of f (classic or range-over-func) over a value in
+// `maps`, with the key-vs-digest selection made in the body or by the iterator.
 func c08Passes(f *ssa.Function, maps map[ssa.Value]bool) []c08Pass {
 	var out []c08Pass
-	for _, l := range Loops(f) {
-		ranged, next, _, _, ok := l.RangeMap()
-		if !ok || !maps[ranged] {
+	for _, it := range c09ItersIn(f) {
+		if it.Coll == nil || it.Val == nil || !(maps[it.Coll] || maps[c09Resolved(it.Coll)]) {
 			continue
 		}
-		p := c08Pass{fn: f, l: l}
-		for _, r := range *next.Referrers() {
-			if e, ok := r.(*ssa.Extract); ok {
-				if e.Index == 1 {
-					p.k = e
-				} else if e.Index == 2 {
-					p.v = e
-				}
-			}
-		}
-		if p.k == nil || p.v == nil {
-			continue
-		}
+		p := c08Pass{it: it, fn: it.Fn, l: it.Loop, k: it.Key, v: it.Val}
 		p.obj = c09DescObjOf(p.v)
-		for _, i := range Ifs(f) {
-			if !l.Blocks[i.Block()] {
-				continue
-			}
-			cond, t, fe := ifEdges(i)
-			bo, ok := cond.(*ssa.BinOp)
-			if !ok || (bo.Op != token.EQL && bo.Op != token.NEQ) {
-				continue
-			}
-			isDg := func(x ssa.Value) bool {
-				call, ok := x.(*ssa.Call)
-				if ok && CalleeName(call) == "(digest.Digest).String" {
-					return p.obj.fieldOf(call.Call.Args[0], "Digest")
+		if p.k != nil {
+			p.eq, p.neq = c08SignEdges(it, p.k, p.obj, nil)
+		}
+		// selection made by the in-module iterator that feeds the body
+		if pit := it.ProdIter; pit != nil && pit.Key != nil && pit.Val != nil {
+			constOf := func(v ssa.Value) (bool, bool) {
+				w := it.ProdTr(v)
+				if cst, isC := w.(*ssa.Const); w != nil && isC && cst.Value != nil {
+					return cst.Value.String() == "true", true
 				}
-				if cv, ok := x.(*ssa.Convert); ok {
-					return p.obj.fieldOf(cv.X, "Digest")
-				}
-				if cv, ok := x.(*ssa.ChangeType); ok {
-					return p.obj.fieldOf(cv.X, "Digest")
-				}
-				return false
+				return false, false
 			}
-			if (c09SameKey(bo.X, p.k) && isDg(bo.Y)) || (c09SameKey(bo.Y, p.k) && isDg(bo.X)) {
-				if bo.Op == token.NEQ {
-					p.neq, p.eq = append(p.neq, t), append(p.eq, fe)
-				} else {
-					p.neq, p.eq = append(p.neq, fe), append(p.eq, t)
+			peq, pneq := c08SignEdges(pit, pit.Key, c09DescObjOf(pit.Val), constOf)
+			var ycs []ssa.Instruction
+			for _, yc := range c09YieldCalls(it.Producer) {
+				if pit.InBody(yc) {
+					ycs = append(ycs, yc)
+				}
+			}
+			for _, cand := range []struct {
+				sign  int
+				edges []Edge
+			}{{1, peq}, {-1, pneq}} {
+				if len(cand.edges) == 0 || len(ycs) == 0 {
+					continue
+				}
+				exact := true
+				for _, yc := range ycs {
+					if !c09Guarded(yc, cand.edges) { // only entries of that kind are yielded
+						exact = false
+					}
+				}
+				for _, e := range cand.edges { // and every one of them
+					if pit.ContinuesWithout(e.To, 0, newCut().Instr(ycs...)) {
+						exact = false
+					}
+				}
+				if exact {
+					p.sel = cand.sign
 				}
 			}
 		}
 		out = append(out, p)
 	}
 	return out
-}
-
-// c08BackToHeader: some path from edge e back to the loop header avoids the cut.
-func c08BackToHeader(l *Loop, e Edge, ct *cut) bool {
-	return reach(e.To, 0, l.Header.Instrs[0], ct)
 }
 
 func c08IsStripHelper(p *Prog, g *ssa.Function) bool {
@@ -235,6 +317,10 @@ func c08RefNameSet(fn *ssa.Function, obj c09DescObj, k ssa.Value, e ssa.Value, r
 		return false, "the entry's Annotations are not replaced before it is appended (the reference name is not recorded)", false
 	}
 	if !c08FreshMap(st.Val) {
+		// built by a helper on the map level: withAnnotationRefName(desc.Annotations, ref)
+		if ok, cp := c08RefNameMapHelper(st.Val, obj, k, refName); ok {
+			return true, "", cp
+		}
 		return false, "the annotations map assigned to the entry is not freshly made (writing the reference name into it would modify the descriptor held by the resolver)", false
 	}
 	set := false
@@ -260,6 +346,74 @@ func c08RefNameSet(fn *ssa.Function, obj c09DescObj, k ssa.Value, e ssa.Value, r
 		}
 	}
 	return true, "", copied
+}
+
+// c08RefNameMapHelper: v is the result of an in-module helper that returns a
+// freshly made map in which refName is set to the argument that is the entry's
+// reference; copied reports that the entry's annotations are copied into it.
+func c08RefNameMapHelper(v ssa.Value, obj c09DescObj, k ssa.Value, refName string) (ok, copied bool) {
+	rs := Roots(v)
+	if len(rs) != 1 {
+		return false, false
+	}
+	call, isCall := rs[0].(*ssa.Call)
+	if !isCall {
+		return false, false
+	}
+	h := StaticCallee(call)
+	if h == nil || !inModule(h) || len(h.Blocks) == 0 {
+		return false, false
+	}
+	pr, pa := -1, -1
+	for i, a := range call.Call.Args {
+		if c09SameKey(a, k) {
+			pr = i
+		}
+		if obj.fieldOf(a, "Annotations") {
+			pa = i
+		}
+	}
+	if pr < 0 || pr >= len(h.Params) {
+		return false, false
+	}
+	atoms := RetAtoms(h, 0)
+	if len(atoms) == 0 {
+		return false, false
+	}
+	copied = pa >= 0
+	for _, a := range atoms {
+		if !c08FreshMap(a.Val) {
+			return false, false
+		}
+		set, cp := false, false
+		AllInstrs(h, func(in ssa.Instruction) {
+			switch u := in.(type) {
+			case *ssa.MapUpdate:
+				if c09SameKey(u.Map, a.Val) {
+					if s, isC := constString(u.Key); isC && s == refName && c09SameKey(u.Value, h.Params[pr]) && Dominates(u, a.Ret) {
+						set = true
+					}
+				}
+			case ssa.CallInstruction:
+				if n := CalleeName(u); (n == "maps.Copy" || n == "maps.Insert") && pa >= 0 && pa < len(h.Params) {
+					ca := u.Common().Args
+					if c09SameKey(ca[0], a.Val) && c09SameKey(ca[1], h.Params[pa]) {
+						cp = true
+					}
+				}
+			}
+		})
+		for _, rt := range Roots(a.Val) {
+			if cl, isCl := rt.(*ssa.Call); isCl && CalleeName(cl) == "maps.Clone" && pa >= 0 && pa < len(h.Params) && c09SameKey(cl.Call.Args[0], h.Params[pa]) {
+				cp = true
+			}
+		}
+		if !set {
+			return false, false
+		}
+		copied = copied && cp
+	}
+	return true, copied
 }
 
 // c08FreshMap: every value m may denote is a map made in this function (make / maps.Clone).
@@ -354,11 +508,23 @@ func c08R1(c *Ctx, r *c08Roles) {
 				for _, e := range u.Edges {
 					grow(e)
 				}
+			case *ssa.UnOp:
+				// a local accumulated in a cell (captured by the body of a range-over-func loop): everything stored to it
+				if u.Op == token.MUL {
+					for _, st := range c09CellStores(u.X) {
+						grow(st.Val)
+					}
+				}
 			case *ssa.Extract:
 				if call, ok := u.Tuple.(*ssa.Call); ok {
 					if g := StaticCallee(call); g != nil && len(g.Blocks) > 0 && fnPkgPath(g) == pkgPath(c08Pkg) {
 						for _, a := range RetAtoms(g, u.Index) {
 							grow(a.Val)
+						}
+						for _, r := range Returns(g) {
+							if u.Index < len(r.Results) {
+								grow(r.Results[u.Index])
+							}
 						}
 					}
 				}
@@ -371,6 +537,11 @@ func c08R1(c *Ctx, r *c08Roles) {
 				} else if g := StaticCallee(u); g != nil && len(g.Blocks) > 0 && fnPkgPath(g) == pkgPath(c08Pkg) {
 					for _, a := range RetAtoms(g, 0) {
 						grow(a.Val) // the slice built by an extracted pass
+					}
+					for _, r := range Returns(g) {
+						if len(r.Results) > 0 {
+							grow(r.Results[0]) // … also when it is accumulated in a captured variable
+						}
 					}
 				}
 			}
@@ -397,7 +568,7 @@ func c08R1(c *Ctx, r *c08Roles) {
 		var p1Emits []emit
 		for i := range passes {
 			p := &passes[i]
-			if len(p.neq) == 0 {
+			if len(p.starts(-1)) == 0 {
 				continue
 			}
 			var mine []emit
@@ -412,15 +583,15 @@ func c08R1(c *Ctx, r *c08Roles) {
 							}
 						}
 					}
-					if p.l.Contains(em.call.(ssa.Instruction)) && fromEntry {
+					if p.it.InBody(em.call.(ssa.Instruction)) && fromEntry {
 						mine = append(mine, em)
 						ct.Instr(em.call.(ssa.Instruction))
 					}
 				}
 			}
 			ok := len(mine) > 0
-			for _, e := range p.neq {
-				if c08BackToHeader(p.l, e, ct) {
+			for _, b := range p.starts(-1) {
+				if p.it.ContinuesWithout(b, 0, ct) {
 					ok = false
 				}
 			}
@@ -430,7 +601,7 @@ func c08R1(c *Ctx, r *c08Roles) {
 		}
 		anyNeq := false
 		for i := range passes {
-			if len(passes[i].neq) > 0 {
+			if len(passes[i].starts(-1)) > 0 {
 				anyNeq = true
 			}
 		}
@@ -581,13 +752,13 @@ func c08R1(c *Ctx, r *c08Roles) {
 		okStrip := true
 		for i := range passes {
 			p := &passes[i]
-			if len(p.eq) == 0 || p == p1 {
+			if len(p.starts(1)) == 0 || p == p1 {
 				continue
 			}
 			ct := newCut()
 			n := 0
 			for _, em := range emits {
-				if !p.l.Contains(em.call.(ssa.Instruction)) {
+				if !p.it.InBody(em.call.(ssa.Instruction)) {
 					continue
 				}
 				for _, e := range em.elems {
@@ -605,12 +776,12 @@ func c08R1(c *Ctx, r *c08Roles) {
 				}
 			}
 			dup, _, _ := CallTests(p.fn, "(~/internal/container/set.Set[T]).Contains", func(x *ssa.Call) bool {
-				return dedupSets[x.Call.Args[0]] && p.obj.fieldOf(x.Call.Args[1], "Digest")
+				return (dedupSets[x.Call.Args[0]] || dedupSets[c09Resolved(x.Call.Args[0])]) && p.obj.fieldOf(x.Call.Args[1], "Digest")
 			})
 			ct.Edges(dup...)
 			ok := n > 0
-			for _, e := range p.eq {
-				if c08BackToHeader(p.l, e, ct) {
+			for _, b := range p.starts(1) {
+				if p.it.ContinuesWithout(b, 0, ct) {
 					ok = false
 				}
 			}
@@ -629,11 +800,11 @@ func c08R1(c *Ctx, r *c08Roles) {
 		for _, h := range hosts {
 			AllInstrs(h, func(in ssa.Instruction) {
 				op, set, elem := c09SetOp(in)
-				if op != "add" || !dedupSets[set] {
+				if op != "add" || !(dedupSets[set] || dedupSets[c09Resolved(set)]) {
 					return
 				}
 				nAdd++
-				if !p1.l.Contains(in) || !p1.obj.fieldOf(elem, "Digest") {
+				if !p1.it.InBody(in) || !p1.obj.fieldOf(elem, "Digest") {
 					okDedup = false
 					return
 				}
@@ -641,8 +812,9 @@ func c08R1(c *Ctx, r *c08Roles) {
 				for _, em := range p1Emits {
 					ct.Instr(em.call.(ssa.Instruction))
 				}
-				hdr := p1.l.Header.Instrs[0]
-				if reach(p1.l.Header, 0, in, ct) && reach(in.Block(), instrIndex(in)+1, hdr, ct) {
+				// an iteration that marks the digest has also appended the entry
+				sb, si := p1.it.BodyStart()
+				if reach(sb, si, in, ct) && p1.it.ContinuesWithout(in.Block(), instrIndex(in)+1, ct) {
 					okDedup = false
 				}
 			})
@@ -717,30 +889,24 @@ func c08R3(c *Ctx, r *c08Roles) {
 	refName, _ := c08RefNameConst(c.P)
 	isTag := func(n string) bool { return n == "(~/content.Tagger).Tag" || n == c08nResTag }
 	// loadIndex role: a range over ocispec.Index.Manifests below which (directly or in a helper) every entry is tagged
-	type loader struct {
-		fn *ssa.Function
-		l  *Loop
-	}
-	var loaders []loader
-	for _, f := range c.P.FuncsOfPkg(c08Pkg) {
-		if r.savers[f] {
+	var loaders []*c09Iter
+	for _, f := range c09FuncsOfPkg(c.P, c08Pkg) {
+		if r.savers[f] || c09IsYieldBody(f) {
 			continue
 		}
-		for _, l := range Loops(f) {
-			ranged, _, _, _, ok := l.RangeIndex()
-			if !ok {
-				continue
-			}
+		for _, it := range c09ItersIn(f) {
 			isManifests := false
-			for _, rt := range Roots(ranged) {
-				if u, ok := rt.(*ssa.UnOp); ok {
-					if fa, ok := u.X.(*ssa.FieldAddr); ok && strings.HasSuffix(fieldName(fa.X.Type(), fa.Field), "ocispec.Index.Manifests") {
-						isManifests = true
+			if it.Coll != nil {
+				for _, rt := range Roots(it.Coll) {
+					if u, ok := rt.(*ssa.UnOp); ok {
+						if fa, ok := u.X.(*ssa.FieldAddr); ok && strings.HasSuffix(fieldName(fa.X.Type(), fa.Field), "ocispec.Index.Manifests") {
+							isManifests = true
+						}
 					}
 				}
 			}
-			if isManifests && reachesCall(f, 2, func(n string, _ ssa.CallInstruction) bool { return isTag(n) }) {
-				loaders = append(loaders, loader{f, l})
+			if isManifests && reachesCall(it.Fn, 2, func(n string, _ ssa.CallInstruction) bool { return isTag(n) }) {
+				loaders = append(loaders, it)
 			}
 		}
 	}
@@ -749,38 +915,33 @@ func c08R3(c *Ctx, r *c08Roles) {
 		return
 	}
 	var loaderFns []*ssa.Function
-	for _, ld := range loaders {
-		L, l := ld.fn, ld.l
-		loaderFns = append(loaderFns, L)
-		ln := FnName(L)
-		ranged, idx, body, _, _ := l.RangeIndex()
-		// the element of this iteration
-		var elem ssa.Value
-		for _, ref := range *idx.Referrers() {
-			if ia, ok := ref.(*ssa.IndexAddr); ok && (c09SameKey(ia.X, ranged) || c09SameFieldLoad(ia.X, ranged)) {
-				for _, r2 := range *ia.Referrers() {
-					if ld, ok := r2.(*ssa.UnOp); ok && ld.Op == token.MUL {
-						elem = ld
-					}
-				}
-			}
+	for _, it := range loaders {
+		it := it
+		L, l := it.Fn, it.Loop
+		outer := it.Stmt.Parent()
+		loaderFns = append(loaderFns, outer)
+		ln := FnName(outer)
+		lpos := it.Stmt.Pos()
+		if l != nil {
+			lpos = blockPos(l.Header)
 		}
+		elem := it.Val
 		if elem == nil {
-			c.Undecided(R3, ln+"|every-entry-tagged-by-digest-stripped", blockPos(l.Header), "the element of the range over Index.Manifests is not read as manifests[i]")
+			c.Undecided(R3, ln+"|every-entry-tagged-by-digest-stripped", lpos, "the element of the range over Index.Manifests is not bound to a value")
 			continue
 		}
 		obj := c09DescObjOf(elem)
 		inObj := func(v ssa.Value) bool { return v != nil && (obj.vals[v] || obj.vals[strip(v)]) }
-		header := l.Header.Instrs[0]
 		inLoop := func(ins []ssa.Instruction) []ssa.Instruction {
 			var out []ssa.Instruction
 			for _, in := range ins {
-				if l.Contains(in) {
+				if it.InBody(in) {
 					out = append(out, in)
 				}
 			}
 			return out
 		}
+		bodyB, bodyI := it.BodyStart()
 		// Tag(strip(desc), desc.Digest.String()) / IndexAll(plain(desc)) — performed in the loop or by a helper called from it
 		byDigest := inLoop(c09EffectSites(L, c09Identity, func(call ssa.CallInstruction, bind c09Bind) bool {
 			a := call.Common().Args
@@ -806,10 +967,10 @@ func c08R3(c *Ctx, r *c08Roles) {
 			}
 			return inObj(bind(c09CellOrValue(last)))
 		}, 2))
-		ok1 := len(byDigest) > 0 && !c08PathExists(body.To, 0, header, false, newCut().Instr(byDigest...), nil)
-		c.Check(R3, ln+"|every-entry-tagged-by-digest-stripped", blockPos(l.Header), ok1, ifelse(ok1, "each index entry is tagged by its digest with the ref-name annotation removed", "an index entry can be skipped (or keeps its ref-name annotation) when tagging by digest: Resolve(digest) differs after reopen"))
-		ok2 := len(idxAll) > 0 && !c08PathExists(body.To, 0, header, false, newCut().Instr(idxAll...), nil)
-		c.Check(R3, ln+"|every-entry-indexed", blockPos(l.Header), ok2, ifelse(ok2, "each index entry's graph is indexed", "an index entry's graph may not be indexed: Predecessors differ after reopen"))
+		ok1 := len(byDigest) > 0 && !it.ContinuesWithout(bodyB, bodyI, newCut().Instr(byDigest...))
+		c.Check(R3, ln+"|every-entry-tagged-by-digest-stripped", lpos, ok1, ifelse(ok1, "each index entry is tagged by its digest with the ref-name annotation removed", "an index entry can be skipped (or keeps its ref-name annotation) when tagging by digest: Resolve(digest) differs after reopen"))
+		ok2 := len(idxAll) > 0 && !it.ContinuesWithout(bodyB, bodyI, newCut().Instr(idxAll...))
+		c.Check(R3, ln+"|every-entry-indexed", lpos, ok2, ifelse(ok2, "each index entry's graph is indexed", "an index entry's graph may not be indexed: Predecessors differ after reopen"))
 		// Tag(desc, desc.Annotations[refName]) exactly when the annotation is non-empty: evaluated in the
 		// function that hosts that call (the loader, or the helper that handles one entry)
 		ok3, found := true, false
@@ -819,9 +980,10 @@ func c08R3(c *Ctx, r *c08Roles) {
 			bind c09Bind
 			loop *Loop
 		}{{L, c09Identity, l}}
+		selfIsBody := l == nil
 		for _, call := range Calls(L, func(string) bool { return true }) {
 			g := StaticCallee(call)
-			if _, isCall := call.(*ssa.Call); !isCall || g == nil || !l.Contains(call.(ssa.Instruction)) || fnPkgPath(g) != fnPkgPath(L) || len(g.Blocks) == 0 {
+			if _, isCall := call.(*ssa.Call); !isCall || g == nil || !it.InBody(call.(ssa.Instruction)) || fnPkgPath(g) != fnPkgPath(L) || len(g.Blocks) == 0 {
 				continue
 			}
 			args := call.Common().Args
@@ -902,13 +1064,17 @@ func c08R3(c *Ctx, r *c08Roles) {
 						if c08PathExists(e.To, 0, h.loop.Header.Instrs[0], false, ct, nil) {
 							ok3 = false
 						}
+					} else if h.fn == L && selfIsBody {
+						if it.ContinuesWithout(e.To, 0, ct) {
+							ok3 = false
+						}
 					} else if c08NilReturnFrom(e.To, 0, ct) != nil {
 						ok3 = false
 					}
 				}
 			}
 		}
-		c.Check(R3, ln+"|tagged-by-ref-iff-annotated", blockPos(l.Header), ok3 && found, ifelse(ok3 && found, "an entry is tagged by its ref-name annotation exactly when the annotation is non-empty", "the reference tag is not (re)created exactly for the entries that carry a ref-name annotation: tags differ after reopen"))
+		c.Check(R3, ln+"|tagged-by-ref-iff-annotated", lpos, ok3 && found, ifelse(ok3 && found, "an entry is tagged by its ref-name annotation exactly when the annotation is non-empty", "the reference tag is not (re)created exactly for the entries that carry a ref-name annotation: tags differ after reopen"))
 		// errors of the load steps are returned (in the function that makes the call, and by the loader for helper calls)
 		okErr, detail := true, ""
 		var checkErr func(fn *ssa.Function, depth int)
@@ -921,18 +1087,24 @@ func c08R3(c *Ctx, r *c08Roles) {
 				g := StaticCallee(call)
 				helper := g != nil && depth > 0 && fnPkgPath(g) == fnPkgPath(L) && len(g.Blocks) > 0 && ErrResultIndex(g.Signature) >= 0 &&
 					reachesCall(g, 1, func(n string, _ ssa.CallInstruction) bool { return isTag(n) })
-				if fn == L && !l.Contains(call.(ssa.Instruction)) {
+				if fn == L && !it.InBody(call.(ssa.Instruction)) {
 					continue
 				}
 				if isTag(n) || n == "(*~/internal/graph.Memory).IndexAll" || helper {
-					if res := ErrFlow(call, ErrFlowOpts{}); !res.OK {
+					if c09IsYieldBody(fn) {
+						// inside a range-over-func body: the error is parked in a variable of the enclosing
+						// function, which returns it after the loop was left with `return false`
+						if !c08YieldBodyReturnsErr(call) {
+							okErr, detail = false, FnName(fn)+": the error of "+n+" does not leave the range-over-func loop"
+						}
+					} else if res := ErrFlow(call, ErrFlowOpts{}); !res.OK {
 						// chained form (`err := a(); if err == nil { err = b() }; if err != nil { return err }`):
 						// decided with the nil facts carried along each path
 						in := call.(ssa.Instruction)
 						e := ErrOf(call)
 						swallowed := e == nil || c08PathExists(in.Block(), instrIndex(in)+1, nil, true, nil, []ssa.Value{e})
-						if !swallowed && fn == L {
-							swallowed = c08PathExists(in.Block(), instrIndex(in)+1, header, false, nil, []ssa.Value{e})
+						if !swallowed && fn == L && l != nil {
+							swallowed = c08PathExists(in.Block(), instrIndex(in)+1, l.Header.Instrs[0], false, nil, []ssa.Value{e})
 						}
 						if swallowed {
 							okErr, detail = false, FnName(fn)+": "+res.Detail
@@ -945,7 +1117,7 @@ func c08R3(c *Ctx, r *c08Roles) {
 			}
 		}
 		checkErr(L, 2)
-		c.Check(R3, ln+"|load-errors-returned", blockPos(l.Header), okErr, ifelse(okErr, "errors of the three load steps are returned", "a load error is dropped: "+detail))
+		c.Check(R3, ln+"|load-errors-returned", lpos, okErr, ifelse(okErr, "errors of the three load steps are returned", "a load error is dropped: "+detail))
 	}
 	loadersContain := func(g *ssa.Function) bool {
 		for _, L := range loaderFns {
@@ -997,7 +1169,7 @@ func c08R3(c *Ctx, r *c08Roles) {
 		return false
 	}
 	nDec := 0
-	for _, f := range c.P.FuncsOfPkg(c08Pkg) {
+	for _, f := range c09FuncsOfPkg(c.P, c08Pkg) {
 		if isShared(f) {
 			continue
 		}
@@ -1074,6 +1246,93 @@ func c08R3(c *Ctx, r *c08Roles) {
 	}
 }
 
+// c08PathBase: a wrapper (descriptorBlobPath(desc) = blobPath(desc.Digest) with its
+// own error text) counts as the function it wraps.
+func c08PathBase(g *ssa.Function) *ssa.Function {
+	for depth := 0; g != nil && depth < 3; depth++ {
+		var inner *ssa.Function
+		for _, a := range RetAtoms(g, 0) {
+			if s, isC := constString(a.Val); isC && s == "" {
+				continue
+			}
+			ex, ok := a.Val.(*ssa.Extract)
+			if !ok {
+				return g
+			}
+			call, ok := ex.Tuple.(*ssa.Call)
+			if !ok || ex.Index != 0 {
+				return g
+			}
+			h := StaticCallee(call)
+			if h == nil || fnPkgPath(h) != fnPkgPath(g) || h.Signature.Params().Len() != 1 {
+				return g
+			}
+			inner = h
+		}
+		if inner == nil {
+			return g
+		}
+		g = inner
+	}
+	return g
+}
+
+// c08YieldBodyReturnsErr: the error of a call inside a range-over-func body is
+// stored into a captured variable and the body returns false on its non-nil
+// edge; the enclosing function returns that variable.
+func c08YieldBodyReturnsErr(call ssa.CallInstruction) bool {
+	fn := call.Parent()
+	e := ErrOf(call)
+	if e == nil || fn.Parent() == nil {
+		return false
+	}
+	al := Aliases(e)
+	_, nonNil, _ := NilTests(fn, al)
+	if len(nonNil) == 0 {
+		return false
+	}
+	var cells []ssa.Value
+	var stores []ssa.Instruction
+	AllInstrs(fn, func(in ssa.Instruction) {
+		if st, ok := in.(*ssa.Store); ok && al[st.Val] {
+			if fv, isFV := st.Addr.(*ssa.FreeVar); isFV {
+				stores = append(stores, st)
+				cells = append(cells, freeVarBindings(fv)...)
+			}
+		}
+	})
+	if len(stores) == 0 {
+		return false
+	}
+	for _, ne := range nonNil {
+		for _, r := range Returns(fn) {
+			if !reach(ne.To, 0, r, nil) {
+				continue
+			}
+			cst, isC := r.Results[0].(*ssa.Const)
+			if !isC || cst.Value == nil || cst.Value.String() != "false" || reach(ne.To, 0, r, newCut().Instr(stores...)) {
+				return false
+			}
+		}
+	}
+	// the enclosing function hands the variable back
+	parent := fn.Parent()
+	errIdx := ErrResultIndex(parent.Signature)
+	if errIdx < 0 {
+		return false
+	}
+	for _, r := range Returns(parent) {
+		if ld, ok := r.Results[errIdx].(*ssa.UnOp); ok && ld.Op == token.MUL {
+			for _, cell := range cells {
+				if ld.X == cell {
+					return true
+				}
+			}
+		}
+	}
+	return false
+}
+
 // ---------------------------------------------------------------- R4
 
 func c08R4(c *Ctx, r *c08Roles) {
@@ -1134,6 +1393,7 @@ func c08R4(c *Ctx, r *c08Roles) {
 							src = g
 						}
 					}
+					src = c08PathBase(src)
 					switch {
 					case src == nil:
 						ok, why = false, "the path passed to "+CalleeName(call)+" is not produced by the package's blob-path function"
@@ -1215,7 +1475,7 @@ func c08R5(c *Ctx) {
 		return out
 	}
 	n := 0
-	for _, f := range c.P.FuncsOfPkg("internal/fs/tarfs") {
+	for _, f := range c09FuncsOfPkg(c.P, "internal/fs/tarfs") {
 		AllInstrs(f, func(in ssa.Instruction) {
 			u, ok := in.(*ssa.UnOp)
 			if !ok || u.Op != token.MUL {
